@@ -31,6 +31,15 @@ def run(ctx):
                     for t in n.targets:
                         if is_self_attr(t):
                             thread_attr = t.attr
+    if entries and thread_attr is None:
+        # thread object built into a local, then stored
+        for m in methods.values():
+            locals_ = {t.id for n in walk_no_nested(m.node) if isinstance(n, ast.Assign) and isinstance(n.value, ast.Call) and norm(n.value.func).endswith("Thread") for t in n.targets if isinstance(t, ast.Name)}
+            for n in walk_no_nested(m.node):
+                if isinstance(n, ast.Assign) and isinstance(n.value, ast.Name) and n.value.id in locals_:
+                    for t in n.targets:
+                        if is_self_attr(t):
+                            thread_attr = t.attr
     ctx.require(entries and thread_attr, "no Thread(target=self.<method>) found in ProgressIndicator")
     stop_attr = None
     for n in walk_no_nested(entries[0].node):
@@ -169,9 +178,16 @@ def run(ctx):
                     if is_self_attr(item.context_expr) and item.context_expr.attr in lock_attrs:
                         thread_locks.add(item.context_expr.attr)
     joins = []
+    direct_joiners = set()
     for m in methods.values():
         for c in q.calls(m):
             if isinstance(c.func, ast.Attribute) and c.func.attr == "join" and is_self_attr(c.func.value, thread_attr):
+                joins.append((m, c))
+                direct_joiners.add(m.name)
+    # calls of private helpers that join count as joins at the call site
+    for m in methods.values():
+        for c in q.calls(m):
+            if isinstance(c.func, ast.Attribute) and isinstance(c.func.value, ast.Name) and c.func.value.id == "self" and c.func.attr in direct_joiners and c.func.attr.startswith("_"):
                 joins.append((m, c))
     ctx.require(joins, "the spinner thread is never joined")
     for m, c in joins:
@@ -207,9 +223,22 @@ def run(ctx):
     cfg = ctx.cfg(adv)
     disp = [cfg.node_of(c) for c in q.method_calls(adv, "_display")]
     ctx.require(disp, "advance does not redraw")
+    def elapsed(e):
+        """+1 if the test is true exactly when the interval has elapsed (now >= update_time), -1 if true when it
+        has not (now < update_time), 0 if it is not such a test"""
+        if not (isinstance(e, ast.Compare) and len(e.ops) == 1):
+            return 0
+        l_up = any(is_self_attr(x, "_update_time") for x in walk_no_nested(e.left))
+        r_up = any(is_self_attr(x, "_update_time") for x in walk_no_nested(e.comparators[0]))
+        if l_up == r_up:
+            return 0
+        op = e.ops[0]
+        if r_up:   # now OP update_time
+            return 1 if isinstance(op, (ast.GtE, ast.Gt)) else (-1 if isinstance(op, (ast.Lt, ast.LtE)) else 0)
+        return 1 if isinstance(op, (ast.LtE, ast.Lt)) else (-1 if isinstance(op, (ast.Gt, ast.GtE)) else 0)
     for d in disp:
-        g = guarded_by(cfg, d, lambda e: isinstance(e, ast.Compare) and any(is_self_attr(x, "_update_time") for x in walk_no_nested(e)) and isinstance(e.ops[0], (ast.Lt, ast.LtE)), polarity=False, kill_names=lambda e: set())
-        g2 = guarded_by(cfg, d, lambda e: isinstance(e, ast.Compare) and any(is_self_attr(x, "_update_time") for x in walk_no_nested(e)) and isinstance(e.ops[0], (ast.Gt, ast.GtE)), polarity=True, kill_names=lambda e: set())
+        g = guarded_by(cfg, d, lambda e: elapsed(e) == -1, polarity=False, kill_names=lambda e: set())
+        g2 = guarded_by(cfg, d, lambda e: elapsed(e) == 1, polarity=True, kill_names=lambda e: set())
         if g is not None or g2 is not None:
             r.ok("%s: redraw only when the interval has elapsed" % adv.short)
         else:
